@@ -156,6 +156,7 @@ def repo_state_hash():
         h.update(open(os.path.join(vlib.REPO, f), "rb").read())
     for f in ("prelude.rs", "runner_main.rs"):
         h.update(open(os.path.join(TEMPLATES, f), "rb").read())
+    h.update(open(os.path.abspath(__file__), "rb").read())      # the renderer itself
     return h.hexdigest()[:16]
 
 
@@ -179,7 +180,8 @@ def _write_workspace(d, shards, features, extra_deps=""):
                  "use prelude::*;"]
         line_of = {}
         for u in units:
-            sam = ", ".join("ser(&%s)" % s for s in u.samples) if u.serde else ""
+            rty = u.meta.get("root_ty", u.name)
+            sam = ", ".join("{ let v: %s = %s; ser(&v) }" % (rty, s) for s in u.samples) if u.serde else ""
             de = ("deser::<%s>" % u.name) if (u.serde and u.deser) else "no_deser"
             body = "pub mod m_%s { use super::prelude::*; %s pub fn entry() -> Entry { Entry { name: \"%s\", info: info::<%s>, samples: || vec![%s], deser: %s } } }" % (
                 u.name.lower(), u.src.replace("\n", " "), u.name, u.meta.get("root_ty", u.name), sam, de)
